@@ -244,3 +244,10 @@ Definition claim_checked (poolbal : Z) (rate w : dec) (cstart last now cend expi
 Definition claim_on (unchecked : bool) := if unchecked then claim else claim_checked.
 (* int64(amount) or NewIntFromUint64(amount) *)
 Definition ubi_mint_on (cast : bool) (amount : Z) : outcome Z := if cast then ubi_mint amount else Ok (amount * 1000000).
+
+(* ------------------------------------------------------------------ IncreasePoolRewards: the pool reward is split per staked denom,
+   allocation_d = round(reward * stake_cap_d); every delegator is credited its share of each allocation *)
+Definition credit_one (reward : Z) (cap : dec) : outcome Z :=
+  do a <- relabel (dmul (dec_of_int reward) cap); Ok (round_int a).
+Definition credit_two (reward : Z) (cap1 cap2 : dec) : outcome Z :=
+  do a <- credit_one reward cap1; do b <- credit_one reward cap2; Ok (a + b).
